@@ -82,6 +82,11 @@ func returnClearWorks() bool {
 
 func RunC13(env *sim.Env) {
 	t := env.Tape
+	if t.Choose(10) == 9 {
+		// one run in ten is a re-entrant program judged by a reference model (c13rec.go)
+		runC13Recursive(env)
+		return
+	}
 	opts := gen.SwarmOptions(t)
 	opts.TargetTry = true
 	opts.Probes = true
